@@ -34,8 +34,12 @@ COMPONENTS = {
     "stubbed_or_absent": ["cbs / flasso (no R in the sandbox): never run"],
 }
 ASSUMPTIONS = [
-    "surviving bins are observed at the entry of segment_haar / segment_none / segment_hmm (not recomputed)",
-    "input tables are sorted, non-overlapping bins; arm structure is the one planted by the generator",
+    "surviving bins are observed at the entry of segment_haar / segment_none / segment_hmm and constrained by "
+    "filter rules (zero / below-minimum weight and, with skip_low, null coverage never survive; without the "
+    "outlier filter everything else does) and by T7 (hmm* and 'none' segment the same bins of an unsplit "
+    "chromosome); the outlier filter itself is not re-implemented",
+    "input tables are sorted, non-overlapping bins (any row index); arm structure is the one planted by the "
+    "generator (one unambiguous centromere gap per split chromosome, optionally a smaller second gap in an arm)",
     "SimPool models CPython 3.12 ProcessPoolExecutor (fork start method)",
     "cbs and flasso are not exercised (Rscript absent)",
     "sampled, not exhaustive: a clean batch is evidence, not proof",
